@@ -882,3 +882,77 @@ def sweep_texts() -> List[Tuple[str, str]]:
         out.append((t, f"non_python:{i}"))
         out.append((H + C + "\n" + t + "\n", f"non_python_inside:{i}"))
     return out
+
+
+# ----------------------------------------------------------------------------------
+# Line-boundary family: characters on which Python's tokenizer, ``str.splitlines`` and
+# ``split("\n")`` disagree, placed BEFORE constructs that produce located errors
+# ----------------------------------------------------------------------------------
+BOUNDARY_CHARS = [("u2028", "\u2028"), ("u2029", "\u2029"), ("u0085", "\x85"), ("ff", "\x0c"),
+                  ("x1c", "\x1c"), ("x1d", "\x1d"), ("x1e", "\x1e"), ("vt", "\x0b"), ("cr", "\r")]
+
+# (name, filler line(s) above, construct) -- every construct makes the front end report an
+# error located at a node; the f-string ones locate a node nested in a formatted string
+_FILLERS = [("e0", "    # N" + "é" * 40), ("e1", "    # Nx" + "é" * 40),
+            ("eur0", "    # " + "€" * 30), ("eur1", "    # x" + "€" * 30),
+            ("eur2", "    # xy" + "€" * 30), ("astral", "    # " + "\U0001F600" * 20)]
+_FSTRING_EXPRS = ["unsupported(1)", "unknown_variable", "a!r", "a:>3", "1 + 2", "\"é\" + x"]
+
+
+def boundary_texts() -> List[Tuple[str, str]]:
+    out: List[Tuple[str, str]] = []
+    tail = '\n\n__version__ = "dummy"\n__xml_namespace__ = "https://dummy.com"\n'
+    for cname, ch_ in BOUNDARY_CHARS:
+        sep = ch_ if ch_ != "\r" else "\r# "
+        for count in (1, 2, 3):
+            head = "# Copied from the book:" + (sep + "Details of the shell") * count + "\n"
+            for fname, filler in _FILLERS:
+                for ei, expr in enumerate(_FSTRING_EXPRS):
+                    if count > 1 and ei > 1:
+                        continue
+                    same_line = "é€" if ei % 2 else ""
+                    body = ("@verification\ndef match_something(text: str) -> bool:\n"
+                            + (filler + "\n") * 3
+                            + f'    pattern = f"^{same_line}{{{expr}}}$"\n'
+                            + filler + "\n"
+                            + "    return match(pattern, text) is not None\n")
+                    out.append((head + body + tail, f"boundary:{cname}:{count}:{fname}:fstring{ei}"))
+        # other placements of the character, other located errors
+        doc = f'"""Provide a meta-model.{ch_ if ch_ != chr(13) else chr(13)}Second part é€."""\n'
+        strc = f'Zz_text: str = constant_str(value="a{ch_}b é")\n'
+        comment = "# note:" + sep + "continued é\n"
+        constructs = [
+            ("annotation", 'class A(DBC):\n    """Doc é."""\n    x: "a é b"\n'),
+            ("decorator", '@serialization(with_model_type=1)\nclass A(DBC):\n    """Doc é."""\n'),
+            ("invariant", '@invariant(lambda self: self.x @ 1, "é")\nclass A(DBC):\n    """Doc."""\n    x: int\n'
+                          '    def __init__(self, x: int) -> None:\n        self.x = x\n'),
+            ("constant", 'Zz: Set[str] = constant_set(values=["é", 1 + 2])\n'),
+            ("enum", 'class E(Enum):\n    A = "é"\n    x.B = "b"\n'),
+            ("pattern", '@verification\ndef match_x(text: str) -> bool:\n    # ééé\n'
+                        '    return match("^é[$", text) is not None\n'),
+            ("docref", 'class A(DBC):\n    """Doc é :class:`Missing`."""\n'),
+        ]
+        for pname, place in (("comment", comment), ("docstring", doc), ("string", strc)):
+            for kname, construct in constructs:
+                pre = place if pname != "docstring" else place
+                text = (pre if pname == "docstring" else "") + \
+                       "from enum import Enum\nfrom re import match\nfrom typing import List, Optional, Set\n" \
+                       "from icontract import invariant, DBC\n" \
+                       "from aas_core_meta.marker import serialization, verification, constant_set\n" + \
+                       (pre if pname != "docstring" else "") + "\n" + construct + tail
+                out.append((text, f"boundary:{cname}:{pname}:{kname}"))
+    return out
+
+
+def boundary_core(texts: List[Tuple[str, str]]) -> List[Tuple[str, str]]:
+    """The quick-tier subset: every character with one separator, three fillers and two
+    f-string expressions, and every (character, placement) with three constructs."""
+    keep = []
+    for t, label in texts:
+        parts = label.split(":")
+        if parts[-1].startswith("fstring"):
+            if parts[2] == "1" and parts[3] in ("e0", "e1", "eur1") and parts[-1] in ("fstring0", "fstring1"):
+                keep.append((t, label))
+        elif parts[3] in ("annotation", "pattern", "enum"):
+            keep.append((t, label))
+    return keep
